@@ -271,8 +271,10 @@ def _defaults_snapshot():
 
 
 def _summ_solution(cname, sol):
-    if cname in ("MinGenSet", "MinSetCover") and isinstance(sol, list):
+    if cname == "MinGenSet" and isinstance(sol, list):
         return len(sol)
+    if cname == "MinSetCover":
+        return None          # covers of equal (minimum) weight may differ in the number of subsets
     if cname == "MinErrorFlow" and isinstance(sol, dict):
         # no routes; which optimal correction comes back may differ between two solves (alternative optima), its error may not
         return None
@@ -281,6 +283,19 @@ def _summ_solution(cname, sol):
         r = sol.get(key)
         return len(r) if r is not None else None
     return None
+
+
+def _same_obj(cname, args, a, b):
+    """MinErrorFlow with few_flow_values_epsilon reports the error of *a* flow within (1+eps) of the optimum:
+    two admissible answers (another optimum of the second phase) may differ by that factor."""
+    eps = args.get("few_flow_values_epsilon") if cname == "MinErrorFlow" else None
+    if eps:
+        try:
+            a_, b_ = float(a), float(b)
+            return a_ <= (1 + eps) * b_ + 1e-6 and b_ <= (1 + eps) * a_ + 1e-6
+        except Exception:
+            return a == b
+    return _close(a, b)
 
 
 def _close(a, b):
@@ -317,6 +332,8 @@ def isolated_eval(payload):
             res["solved"] = bool(m.is_solved())
             if res["solved"]:
                 res["objective"] = canon(m.get_objective_value()) if hasattr(m, "get_objective_value") else None
+                if op["class"] == "MinSetCover":
+                    res["objective"] = canon(sum(m.subset_weights[i_] for i_ in m.get_solution()))
                 res["routes"] = _summ_solution(op["class"], m.get_solution())
         except SystemExit:
             res["exc"] = "solve:SystemExit"
@@ -401,7 +418,8 @@ def _execute(spec):
                     sim.history.add("pause", seconds=op["seconds"])
                     continue
                 if k == "construct":
-                    info[h] = {"class": op["class"], "inv0": sim.inv, "exc": None, "solves": [], "sols": [], "objs": []}
+                    info[h] = {"class": op["class"], "inv0": sim.inv, "exc": None, "solves": [], "sols": [], "objs": [],
+                               "args": {k_: v_ for k_, v_ in op["args"].items() if not isinstance(v_, str)}}
                     for a, v in op["args"].items():
                         if isinstance(v, str) and v.startswith("@"):
                             shared_use.setdefault(v, set()).add(h)
@@ -426,6 +444,8 @@ def _execute(spec):
                             ret = m.solve()
                             st = bool(m.is_solved())
                             ob = (canon(m.get_objective_value()) if hasattr(m, "get_objective_value") else None) if st else None
+                            if st and I["class"] == "MinSetCover":
+                                ob = canon(sum(m.subset_weights[i_] for i_ in m.get_solution()))      # the minimised quantity
                             nr = _summ_solution(op["class"] if "class" in op else I["class"], m.get_solution()) if st else None
                             I["solves"].append({"solved": st, "objective": ob, "routes": nr, "faulted": injected() > f0, "inv": [a, sim.inv], "returned": None if ret is None else bool(ret)})
                             # a re-solve may legitimately deliver another optimum: getters are compared between solves only
@@ -470,7 +490,7 @@ def _execute(spec):
             elif ref.get("exc"):
                 V("result_depends_on_history", cname, {"in_history": first, "isolated": ref})
             else:
-                if first["solved"] != ref["solved"] or (first["solved"] and (not _close(first["objective"], ref["objective"]) or
+                if first["solved"] != ref["solved"] or (first["solved"] and (not _same_obj(cname, I.get("args", {}), first["objective"], ref["objective"]) or
                                                                                (first["routes"] != ref["routes"] and cname.startswith("k") is False))):
                     # solver-truthfulness cross-check: does the isolated evaluation itself give another answer under
                     # other native solver configurations?  then the difference is the solver's, not the history's
@@ -490,7 +510,7 @@ def _execute(spec):
                         counters["solver_not_truthful_discrepancy_dismissed"] = counters.get("solver_not_truthful_discrepancy_dismissed", 0) + 1
         clean = [s for s in I["solves"] if not s.get("faulted") and "exc" not in s]
         for a, b in zip(clean[:-1], clean[1:]):
-            if a["solved"] != b["solved"] or not _close(a["objective"], b["objective"]) or a["routes"] != b["routes"] or a.get("returned") != b.get("returned"):
+            if a["solved"] != b["solved"] or not _same_obj(cname, I.get("args", {}), a["objective"], b["objective"]) or a["routes"] != b["routes"] or a.get("returned") != b.get("returned"):
                 V("second_solve_differs", cname, {"first": a, "second": b})
                 break
         if not any(s.get("faulted") for s in I["solves"]):
